@@ -12,6 +12,11 @@ package main
 //   inner_shadow         `var x T` in an inner block re-declaring an outer x
 //                        (MPCL has function-level scoping only)
 //   cast_int_wider_uint  uintM(intN) with M > N (zero-extends)
+//   const_cast_shared    T(c) with the top bit of the T-wide c set (e.g. uint2(3)):
+//                        the shared constant `$c` gets T's width and a later
+//                        plain `c` is sign-extended from it
+//   const_left_unsigned  `c < x` (also <= > >=) with a literal on the left and x
+//                        uintN, N >= 32: signed comparator
 //   named_result_zero    a named result read before it is assigned (MPCL does
 //                        not zero-initialise named results: undriven wires)
 
@@ -258,6 +263,22 @@ func (g *gen) typeConst(e *Expr, op string) {
 		return
 	}
 	if g.pct(8) && e.T.W <= 64 {
+		// F5: a typed constant whose top bit is set narrows the shared constant
+		// `$n` (ssa.Program.Constants is keyed by name); a later plain use of the
+		// same number is then sign-extended from the narrow wires.  Only the
+		// probe class emits such casts.
+		top := false
+		if e.K == "lit" {
+			top = e.N.BitLen() == e.T.W
+		} else {
+			top = !e.T.Signed()
+		}
+		if top {
+			if g.opts.defect != "const_cast_shared" {
+				return
+			}
+			g.hit["const_cast_shared"] = true
+		}
 		e.Typed = true
 		g.tag("typed_literal")
 	}
@@ -643,7 +664,7 @@ func (g *gen) callExpr(t *Ty, d int) *Expr {
 			c = append(c, f)
 		}
 	}
-	if len(c) == 0 || g.iters > 4 {
+	if len(c) == 0 || g.iters > 4 || d <= 0 {
 		return nil
 	}
 	f := c[g.r.Intn(len(c))]
@@ -741,7 +762,17 @@ func (g *gen) cmp(d int) *Expr {
 		if b != nil {
 			g.tag("cmp_literal")
 			if g.pct(20) {
-				a, b = b, a
+				// F6: the comparator's signedness follows the LEFT operand, and a
+				// literal is a signed constant: `c < x` on uintN, N >= 32, compares
+				// signed.  Only the probe class puts the constant first there.
+				wide := !t.Signed() && t.W >= 32 && !b.Typed && op != "eq" && op != "ne"
+				if !wide {
+					g.tag("cmp_literal_left")
+					a, b = b, a
+				} else if g.opts.defect == "const_left_unsigned" {
+					g.hit["const_left_unsigned"] = true
+					a, b = b, a
+				}
 			}
 		}
 	}
@@ -992,23 +1023,29 @@ func (g *gen) stmtAssign() []*Stmt {
 	return []*Stmt{{K: "assign", LVs: []*LVal{lv}, E: e}}
 }
 
-func (g *gen) stmtIf(depth int, results []*Ty) []*Stmt {
+// stmtIf: the flag tells that both branches end in `return` (nothing may follow).
+func (g *gen) stmtIf(depth int, results []*Ty) ([]*Stmt, bool) {
 	c := g.boolean(g.opts.maxDepth, false)
 	s := &Stmt{K: "if", E: c}
 	g.tag("if")
-	s.Then = g.block(1+g.r.Intn(3), depth-1, results, g.pct(30))
+	var thenRet, elseRet bool
+	s.Then, thenRet = g.block(1+g.r.Intn(3), depth-1, results, g.pct(30))
 	if g.pct(50) {
-		if g.pct(25) && depth > 1 {
+		if g.pct(25) && depth > 1 && !(thenRet && g.loops > 0) {
 			g.tag("else_if")
-			inner := g.stmtIf(depth-1, results)
+			var inner []*Stmt
+			inner, elseRet = g.stmtIf(depth-1, results)
 			s.Else = inner
 			s.ElseIf = true
 		} else {
 			g.tag("else")
-			s.Else = g.block(1+g.r.Intn(3), depth-1, results, g.pct(25))
+			// inside a loop body at most one branch returns: a loop body that always
+			// returns makes the compiler fail on the increment ("undefined variable 'i'")
+			wantRet := g.pct(25) && !(thenRet && g.loops > 0)
+			s.Else, elseRet = g.block(1+g.r.Intn(3), depth-1, results, wantRet)
 		}
 	}
-	return []*Stmt{s}
+	return []*Stmt{s}, thenRet && elseRet
 }
 
 func (g *gen) stmtFor(depth int, results []*Ty) []*Stmt {
@@ -1092,7 +1129,7 @@ func (g *gen) stmtFor(depth int, results []*Ty) []*Stmt {
 	}
 	g.loops++
 	g.inBlock++
-	s.Then = g.stmts(1+g.r.Intn(3), depth-1, results, true)
+	s.Then, _ = g.stmts(1+g.r.Intn(3), depth-1, results, true)
 	g.inBlock--
 	g.loops--
 	g.iters = saveIt
@@ -1217,12 +1254,13 @@ func (g *gen) stmtReturn(results []*Ty) []*Stmt {
 	return append(pre, &Stmt{K: "ret", Es: es})
 }
 
-// stmts generates n statements in the current scope; mayReturn: an early
-// return may close the list.
-func (g *gen) stmts(n int, depth int, results []*Ty, inLoop bool) []*Stmt {
+// stmts generates n statements in the current scope; the flag tells that the
+// list ends in an if/else whose branches all return.
+func (g *gen) stmts(n int, depth int, results []*Ty, inLoop bool) ([]*Stmt, bool) {
 	var out []*Stmt
 	for i := 0; i < n; i++ {
 		var s []*Stmt
+		term := false
 		switch g.pick(24, 28, 16, 9, 14) {
 		case 0:
 			s = g.stmtDecl()
@@ -1230,7 +1268,7 @@ func (g *gen) stmts(n int, depth int, results []*Ty, inLoop bool) []*Stmt {
 			s = g.stmtAssign()
 		case 2:
 			if depth > 0 {
-				s = g.stmtIf(depth, results)
+				s, term = g.stmtIf(depth, results)
 			}
 		case 3:
 			if depth > 0 && g.loops < 2 && g.iters <= 4 {
@@ -1243,25 +1281,30 @@ func (g *gen) stmts(n int, depth int, results []*Ty, inLoop bool) []*Stmt {
 			s = g.stmtAssign()
 		}
 		out = append(out, s...)
+		if term {
+			g.tag("if_else_both_return")
+			return out, true
+		}
 	}
-	return out
+	return out, false
 }
 
 // block: a nested block (own scope).  withReturn: ends with `return`.
-func (g *gen) block(n int, depth int, results []*Ty, withReturn bool) []*Stmt {
+func (g *gen) block(n int, depth int, results []*Ty, withReturn bool) ([]*Stmt, bool) {
 	save := len(g.vars)
 	g.inBlock++
-	out := g.stmts(n, depth, results, false)
-	if withReturn {
+	out, term := g.stmts(n, depth, results, false)
+	if withReturn && !term {
 		g.tag("early_return")
 		if g.loops > 0 {
 			g.tag("return_in_loop")
 		}
 		out = append(out, g.stmtReturn(results)...)
+		term = true
 	}
 	g.inBlock--
 	g.vars = g.vars[:save]
-	return out
+	return out, term
 }
 
 // ---------------------------------------------------------------- functions and programs
@@ -1313,7 +1356,12 @@ func (g *gen) function(name string, index int, params []Param, results []*Ty, na
 		}
 	}
 	n := 1 + g.r.Intn(g.opts.maxStmts)
-	body = append(body, g.stmts(n, 2, results, false)...)
+	more, term := g.stmts(n, 2, results, false)
+	body = append(body, more...)
+	if term {
+		f.Body = body
+		return f
+	}
 	if named {
 		// make sure every named result is assigned at least sometimes
 		for i, rn := range f.Named {
@@ -1328,8 +1376,8 @@ func (g *gen) function(name string, index int, params []Param, results []*Ty, na
 		// final if/else with both branches returning
 		g.tag("final_if_else_return")
 		c := g.boolean(g.opts.maxDepth, false)
-		th := g.block(g.r.Intn(2), 1, results, true)
-		el := g.block(g.r.Intn(2), 1, results, true)
+		th, _ := g.block(g.r.Intn(2), 1, results, true)
+		el, _ := g.block(g.r.Intn(2), 1, results, true)
 		body = append(body, &Stmt{K: "if", E: c, Then: th, Else: el})
 	} else {
 		body = append(body, g.stmtReturn(results)...)
@@ -1416,8 +1464,12 @@ func genProgram(r *hxlib.Rng, opts genOpts) *Program {
 	}
 	// helpers
 	nh := g.pick(35, 35, 20, 10)
+	if opts.defect == "named_result_zero" && nh == 0 {
+		nh = 1
+	}
 	for i := 0; i < nh; i++ {
-		f := g.function(fmt.Sprintf("f%d", i), i, g.helperParams(), g.resultTys(3, true), g.pct(12))
+		f := g.function(fmt.Sprintf("f%d", i), i, g.helperParams(), g.resultTys(3, true),
+			g.pct(12) || opts.defect == "named_result_zero")
 		p.Funcs = append(p.Funcs, f)
 	}
 	// main
